@@ -29,6 +29,8 @@ type World struct {
 	Huge   bool
 	// StrayProofs: ephemeral v2 siacoin parents sometimes carry meaningless Merkle proofs (valid blocks all the same)
 	StrayProofs bool
+	// NoBig: no payout batches / wallet sweeps (transactions with hundreds of outputs or inputs)
+	NoBig bool
 }
 
 // NewWorld registers the pool's standard locks.
@@ -1658,3 +1660,81 @@ func (b *Builder) V2RenewRevisedInBlock() bool {
 }
 
 func cur64(b *big.Int) types.Currency { return cur(b) }
+
+// ---------------------------------------------------------------------------------------
+// large transactions
+
+// Fanout splits spendable value into many outputs in one transaction (a payout batch: 17..300 outputs, more than one
+// byte can count), to three drawn locks in rotation. v2 when allowed and drawn, else v1.
+func (b *Builder) Fanout() bool {
+	v2 := b.v2Allowed() && (!b.v1Allowed() || rapid.Bool().Draw(b.T, "fanV2"))
+	if !v2 && !b.v1Allowed() {
+		return false
+	}
+	n := rapid.SampledFrom([]int{17, 40, 64, 100, 257, 300}).Draw(b.T, "fanN")
+	picked, total, ok := b.pickInputs("fan", v2, big.NewInt(int64(2*n)), 2)
+	if !ok {
+		return false
+	}
+	locks := []Lock{b.drawLock("fanTo0", !v2), b.drawLock("fanTo1", !v2), b.drawLock("fanTo2", !v2)}
+	each := new(big.Int).Quo(total, big.NewInt(int64(n)))
+	outs := make([]types.SiacoinOutput, n)
+	left := new(big.Int).Set(total)
+	for i := range outs {
+		v := each
+		if i == n-1 {
+			v = left
+		}
+		outs[i] = types.SiacoinOutput{Value: cur(v), Address: locks[i%3].Address()}
+		left = new(big.Int).Sub(left, v)
+	}
+	b.label(fmt.Sprintf("fanout-%d", n))
+	if v2 {
+		b.finishV2(types.V2Transaction{SiacoinInputs: b.v2Inputs(picked), SiacoinOutputs: outs}, SignOpts{})
+	} else {
+		b.finishV1(types.Transaction{SiacoinInputs: b.v1Inputs(picked), SiacoinOutputs: outs})
+	}
+	return true
+}
+
+// Sweep consolidates every spendable output (at least 8, at most 300) into one output in one transaction (a wallet
+// sweep): a block that updates many leaves at once and a multiproof over many leaves.
+func (b *Builder) Sweep() bool {
+	v2 := b.v2Allowed() && (!b.v1Allowed() || rapid.Bool().Draw(b.T, "sweepV2"))
+	if !v2 && !b.v1Allowed() {
+		return false
+	}
+	cands := b.spendableSC(v2)
+	if len(cands) < 8 {
+		return false
+	}
+	if len(cands) > 300 {
+		cands = cands[:300]
+	}
+	total := new(big.Int)
+	for _, c := range cands {
+		b.usedSC[c.el.ID] = true
+		total.Add(total, ref.Big(c.el.SiacoinOutput.Value))
+	}
+	if total.Sign() == 0 || total.BitLen() > 127 {
+		for _, c := range cands {
+			delete(b.usedSC, c.el.ID)
+		}
+		return false
+	}
+	out := []types.SiacoinOutput{{Value: cur(total), Address: b.drawLock("sweepTo", !v2).Address()}}
+	switch {
+	case len(cands) > 255:
+		b.label("sweep->255-inputs")
+	case len(cands) >= 64:
+		b.label("sweep-64..255-inputs")
+	default:
+		b.label("sweep-8..63-inputs")
+	}
+	if v2 {
+		b.finishV2(types.V2Transaction{SiacoinInputs: b.v2Inputs(cands), SiacoinOutputs: out}, SignOpts{})
+	} else {
+		b.finishV1(types.Transaction{SiacoinInputs: b.v1Inputs(cands), SiacoinOutputs: out})
+	}
+	return true
+}
